@@ -182,6 +182,11 @@ def gen_plan(rng, tier="quick"):
         "expected_points": rng.choice([200, 1000, 5000]),
     }
     plan = {"engine": NAME, "recipe": recipe, "op": op, "chunks": chunks, "aux": aux, "aux_chunks": aux_chunks, "coords": coords, "cfg": cfg}
+    if rng.random() < 0.12 and recipe["nd"]:
+        # the dask-backed data is what one of the library's readers returns for a file (chunks= given to the reader, in
+        # wavespectra's or the file's own dimension names), the in-memory data what the same reader returns, loaded
+        station = sorted(k for k, _ in dims) == ["site", "time"]
+        plan["source"] = {"fmt": rng.choice(["ww3", "netcdf"]) if station else "netcdf", "names": rng.choice(["ws", "ws", "native"])}
     if rng.random() < (0.35 if op["m"] in O.PARTITIONS or op["m"].startswith("fit") else 0.15) and op["m"] not in ("sel", "interp"):
         if cfg["strategy"] in ("solo", "pct") and rng.random() < 0.7:
             cfg["strategy"] = rng.choice(["rw", "lockstep"])
@@ -222,7 +227,7 @@ def gen_plan(rng, tier="quick"):
 def shape(plan):
     ck = ",".join(f"{k}:{'w' if v == -1 else (v if isinstance(v, int) else 'u')}" for k, v in sorted(plan["chunks"].items()))
     c = plan["cfg"]
-    return f"{D.describe(plan['recipe'])}|{O.op_label(plan['op'])}|{ck}|aux={plan['aux']}|co={plan.get('coords', 'same')}{'|pair:' + D.describe(plan['pair']) + ('+' + O.op_label(plan['pair_op']) if plan.get('pair_op') else '') if plan.get('pair') else ''}|K{c['K']}cs{c['chunksize']}{c['strategy']}"
+    return f"{D.describe(plan['recipe'])}|{O.op_label(plan['op'])}|{ck}|aux={plan['aux']}|co={plan.get('coords', 'same')}{'|src:' + plan['source']['fmt'] + plan['source']['names'] if plan.get('source') else ''}{'|pair:' + D.describe(plan['pair']) + ('+' + O.op_label(plan['pair_op']) if plan.get('pair_op') else '') if plan.get('pair') else ''}|K{c['K']}cs{c['chunksize']}{c['strategy']}"
 
 
 # ---------------------------------------------------------------------------------------
@@ -245,9 +250,9 @@ def chunked_dims(plan):
     return sorted(k for k, v in plan["chunks"].items() if v != -1)
 
 
-def apply_chunks(ds, plan):
+def apply_chunks(ds, plan, opener=None):
     sizes = dict(ds["efth"].sizes)
-    dsc = ds.chunk(_norm_chunks(plan["chunks"], sizes))
+    dsc = opener(_norm_chunks(plan["chunks"], sizes)) if opener else ds.chunk(_norm_chunks(plan["chunks"], sizes))
     aux = plan.get("aux", "same")
     for v in ("wspd", "wdir", "dpt"):
         if v not in ds:
@@ -262,6 +267,69 @@ def apply_chunks(ds, plan):
             if c in ds.coords and c not in ds.dims:
                 dsc = dsc.assign_coords({c: ds[c].chunk(-1) if cmode == "single" else ds[c]})
     return dsc
+
+
+WW3_NATIVE = {"site": "station", "freq": "frequency", "dir": "direction"}
+
+
+def file_source(ds, src, root):
+    """(in-memory dataset, opener): the library writes ds to a file; the in-memory side is what the matching reader
+    returns, loaded; opener(chunks) is the same reader called with chunks= (dask-backed straight from the file)."""
+    import wavespectra as ws
+
+    os.makedirs(root, exist_ok=True)
+    path = os.path.join(root, f"c07src_{src['fmt']}.nc")
+    if src["fmt"] == "ww3":
+        ds.spec.to_ww3(path)
+        reader = ws.read_ww3
+    else:
+        ds.spec.to_netcdf(path, ncformat="NETCDF3_64BIT", compress=False, packed=False)
+        reader = ws.read_netcdf
+    extra = {}
+
+    def finish(d):
+        for v, (dims_, vals) in extra.items():
+            d[v] = (dims_, vals)
+        return d
+
+    mem = reader(path).load()
+    for v in ("wspd", "wdir", "dpt"):
+        if v not in mem and v in ds and set(ds[v].dims) <= set(mem.dims):
+            extra[v] = (ds[v].dims, ds[v].values)
+    mem = finish(mem)
+
+    def opener(chunks):
+        ch = {k: (v if v != -1 else -1) for k, v in chunks.items()}
+        if src.get("names") == "native" and src["fmt"] == "ww3":
+            ch = {WW3_NATIVE.get(k, k): v for k, v in ch.items()}
+        return finish(reader(path, chunks=ch))
+
+    return mem, opener
+
+
+def _token_seam():
+    """xarray names the dask arrays of an opened file after (absolute path, mtime): both differ between a run and its
+    replay (scratch directories carry the pid).  The path is scrubbed and the mtime pinned, so graph keys - which dask's
+    ordering breaks ties on - are a function of the plan alone."""
+    import re
+
+    import dask.base
+    import xarray.backends.api as xapi
+
+    if getattr(dask.base.tokenize, "_verif", False):
+        return
+    orig = dask.base.tokenize
+    pat = re.compile(r"/dev/shm/wsverif-[^/]*/r\d+")
+
+    def scrub(x):
+        return pat.sub("<scratch>", x) if isinstance(x, str) else x
+
+    def tokenize(*a, **k):
+        return orig(*[scrub(x) for x in a], **{kk: scrub(v) for kk, v in k.items()})
+
+    tokenize._verif = True
+    dask.base.tokenize = tokenize
+    xapi._get_mtime = lambda f: 0
 
 
 class _DetUUID:
@@ -282,6 +350,7 @@ def install_seams(run_seed, warn_mode="ignore"):
 
     dask.config.set(scheduler="sync")
     uuid.uuid4 = _DetUUID()
+    _token_seam()
     np.random.seed(run_seed % (2**32))
     if warn_mode == "always":
         # the process lets warnings through (pytest, logging.captureWarnings, -W always ...): every warning then
@@ -448,8 +517,19 @@ def execute(arg):
 
     g0 = global_state()          # before the library has been called at all in this child
     ds = D.make_dataset(recipe)
+    opener = None
+    if plan.get("source"):
+        from simkit import lanes
+
+        try:
+            ds, opener = file_source(ds, plan["source"], os.path.join(lanes.scratch_root(), "c07src"))
+            sim.count("source_file." + plan["source"]["fmt"])
+        except Exception as exc:   # layout the format cannot hold (not this property's subject): constructed dataset instead
+            sim.count("source_skipped")
+            sim.event("source-skipped", type(exc).__name__)
+            opener = None
     cls = O.tol_class(op)
-    rtol, atol = _tols(cls, recipe.get("dtype", "float64"))
+    rtol, atol = _tols(cls, str(ds["efth"].dtype) if opener else recipe.get("dtype", "float64"))
     # ---- oracle: in memory --------------------------------------------------------------
     try:
         ref = O.apply_op(ds, op)
@@ -461,9 +541,11 @@ def execute(arg):
         return finish()
     cdims = "+".join(chunked_dims(plan)) or "none"
     cause = f"chunked:{cdims}" + ("" if plan["aux"] == "same" else f";aux:{plan['aux']}") + ("" if plan.get("coords", "same") == "same" else f";coords:{plan['coords']}")
+    if opener:
+        cause += f";reader:{plan['source']['fmt']}"
     # ---- clause 1: building the lazy result ------------------------------------------------
     try:
-        dsc = apply_chunks(ds, plan)
+        dsc = apply_chunks(ds, plan, opener)
         lazy = O.apply_op(dsc, op)
     except Exception as exc:
         add("build", cause, type(exc).__name__, f"in-memory call succeeds but the call on chunked data raises {type(exc).__name__}: {exc}")
@@ -705,6 +787,10 @@ def simplify(plan):
         variant(lambda p: p.update(coords="same"))
     if plan.get("pair"):
         variant(lambda p: (p.pop("pair"), p.pop("pair_op", None)))
+    if plan.get("source"):
+        variant(lambda p: p.pop("source"))
+        if plan["source"].get("names") != "ws":
+            variant(lambda p: p["source"].update(names="ws"))
     for key, val in (("nf", 3), ("nf", 5), ("nd", 4), ("nd", 8)):
         if r.get(key, 0) > val:
             def setk(p, key=key, val=val):
